@@ -51,18 +51,14 @@ func metricForType(key string, path []string, val *birch.Value) []Metric {
 	case bsontype.Array:
 		return metricForArray(key, path, val.MutableArray())
 	case bsontype.EmbeddedDocument:
-		path = append(path, key)
+		// every sub-document gets its own copy of the path: appending
+		// in place would let sibling documents overwrite each other's
+		// parent path, and the children's own (deeper) paths must be kept.
+		npath := make([]string, len(path), len(path)+1)
+		copy(npath, path)
+		npath = append(npath, key)
 
-		o := []Metric{}
-		for _, ne := range metricForDocument(path, val.MutableDocument()) {
-			o = append(o, Metric{
-				ParentPath:    path,
-				KeyName:       ne.KeyName,
-				startingValue: ne.startingValue,
-				originalType:  ne.originalType,
-			})
-		}
-		return o
+		return metricForDocument(npath, val.MutableDocument())
 	case bsontype.Boolean:
 		if val.Boolean() {
 			return []Metric{
